@@ -970,6 +970,101 @@ def r9_prefix_languages(rep, g, a):
     rep.check(R, 'array::array_values|comma-needs-element', okg, 'opt(ARRAY_SEP) only under !array.is_empty()', 'the trailing comma is accepted in an array without elements (`[,]`)', facts.loc(b))
 
 
+# expected language of a function when it is not literally its ABNF rule: an ABNF expression over the rule names of spec/toml-1.0.0.abnf
+# (`end-of-input` = nothing follows), with the reason
+LT = 'ws [ comment ] ( newline / end-of-input )'
+REG_EXPECT = {
+    'key::key': ('ws key ws', 'key() lexes the whitespace around the dotted key itself (the ABNF attributes it to keyval-sep / std-table-open)'),
+    'document::parse_keyval': ('ws keyval ' + LT, 'the document is parsed line-wise: a keyval line is `ws keyval ws [comment]` of `expression` plus its line end'),
+    'inline_table::keyval': ('ws keyval ws', 'inline-table-sep / -open / -close whitespace is lexed with the pair'),
+    'table::std_table': ('std-table ' + LT, 'header line: `ws table ws [comment]` of `expression` plus its line end'),
+    'table::array_table': ('array-table ' + LT, 'header line'),
+    'table::table': ('table ' + LT, 'header line'),
+    'array::array': ('array / %x5B %x2C ws-comment-newline %x5D',
+                     'the model does not see the value guard `if !array.is_empty()` in front of the trailing comma; the guard itself is C01/R9 `comma-needs-element`'),
+    'value::value': ('val / %x5B %x2C ws-comment-newline %x5D', 'same as array::array'),
+    'document::document': ('[ %xEF.BB.BF ] toml end-of-input', 'optional byte-order mark, then the whole `toml` rule up to the end of input'),
+    'trivia::line_trailing': (LT, 'helper rule of the line-wise document parser'),
+    'trivia::line_ending': ('newline / end-of-input', 'helper rule of the line-wise document parser'),
+}
+# chunked lexing: one call takes a run; the call must lie between the rule and 1*rule
+REG_BETWEEN = {'strings::basic_chars', 'strings::mlb_content', 'strings::mlb_escaped_nl'}
+
+
+def r10_regular_language(rep, g, a):
+    import os
+    import pickle
+    from . import regular as rg
+    R = rep.rule('C01/R10', 'exact language agreement: the automaton of every parser function (classes, literals, bounds, sequence, choice, repetition, '
+                 'first-byte dispatch, one-byte lookahead, end-of-input, hand-written loops; `val` opaque) accepts exactly the words of its ABNF rule — '
+                 'all lengths, up to and including the whole `toml` document rule; a difference is reported with a shortest distinguishing text', floor=58)
+    facts = g.facts
+    cache = os.path.join(facts.dir, 'regular1.pkl')
+    res = None
+    if os.path.exists(cache):
+        try:
+            res = pickle.load(open(cache, 'rb'))
+        except Exception:
+            res = None
+    if res is None:
+        res = {}
+        sym_a = {'val': 'VAL'}
+        sym_g = {P + 'value::value': 'VAL'}
+        todo = {fn: (rule, None) for fn, (rule, _) in RULE_MAP.items()}
+        for fn, (ex, why) in REG_EXPECT.items():
+            todo[fn] = (ex, why)
+        for fn, (ex, why) in sorted(todo.items()):
+            try:
+                if P + fn not in g.terms:
+                    res[fn] = ('missing', ex, None, None, [], 0)
+                    continue
+                n1 = rg.NFA()
+                ga = rg.GirAutomata(g, sym_g)
+                f1 = ga.build_fn(n1, P + fn)
+                aa = rg.AbnfAutomata(a, sym_a)
+                n2 = rg.NFA()
+                node = aa.expr(ex)
+                f2 = aa.build(n2, node)
+                if fn in REG_BETWEEN:
+                    w1, _, n = rg.compare(n1, f1, *_star1(rg, aa, a, node))
+                    _, w2, n_ = rg.compare(n1, f1, n2, f2)
+                    n += n_
+                else:
+                    w1, w2, n = rg.compare(n1, f1, n2, f2)
+                res[fn] = ('ok', ex, w1, w2, sorted({k for _, k, _ in ga.approx}), n)
+            except rg.Incomplete as e:
+                res[fn] = ('incomplete', ex, str(e), None, [], 0)
+        try:
+            pickle.dump(res, open(cache + f'.tmp{os.getpid()}', 'wb'))
+            os.rename(cache + f'.tmp{os.getpid()}', cache)
+        except OSError:
+            pass
+    from .regular import show_word
+    for fn, (st, ex, w1, w2, approx, n) in sorted(res.items()):
+        key = f'{fn}={ex}'
+        if st == 'missing':
+            rep.incomplete(R, key, f'parser function `{fn}` not found (renamed or removed)')
+            continue
+        if st == 'incomplete':
+            rep.incomplete(R, key, f'no automaton for `{fn}`: {w1}')
+            continue
+        loc = facts.loc(facts.body(P + fn))
+        ok = w1 is None and w2 is None
+        parts = []
+        if w1 is not None:
+            parts.append(f'the parser function accepts {show_word(w1)}, which {"1*(" + ex + ")" if fn in REG_BETWEEN else "`" + ex + "`"} does not derive')
+        if w2 is not None:
+            parts.append(f'the grammar derives {show_word(w2)}, which the parser function does not accept')
+        rep.check(R, key, ok, f'equal ({n} product states' + (f'; superset at: {", ".join(approx)}' if approx else '; exact') + ')',
+                  f'`{fn}` and ABNF `{ex}` denote different languages: ' + '; '.join(parts) + ' (<VAL> stands for any value)', loc)
+
+
+def _star1(rg, aa, a, node):
+    n = rg.NFA()
+    f = aa.build(n, ('rep', 1, INF, node))
+    return n, f
+
+
 def rules(rep, facts):
     feats = set(facts.crates.get('toml_edit', {}).get('features', []))
     if 'toml_edit' not in facts.crates or 'parse' not in feats:
@@ -985,6 +1080,7 @@ def rules(rep, facts):
     r6_lines(rep, g, a)
     r8_first_sets(rep, g, a)
     r9_prefix_languages(rep, g, a)
+    r10_regular_language(rep, g, a)
     if 'toml' in facts.crates:
         r7_single_parser(rep, facts)
 
